@@ -394,6 +394,55 @@ Section Heap.
   End Flags.
 End Heap.
 
+(* ---------- any other Go slice reachable from a *Data ---------- *)
+
+(* The heap machine above keeps Databases, Users and everything below them BY VALUE in the
+   object.  That is the semantics of the code only because Data.Clone copies every slice and
+   map reachable from a *Data into new arrays (re-read from the source on every run:
+   c07_clone_fields_copied / c07_clone_all_deep), for the FSM writes them in place with three
+   idioms: append(s, x) (CreateSubscription, CreateUser, CreateDatabase, ...),
+   append(s[:i], s[i+1:]...) (DropSubscription, DropUser, DropRetentionPolicy, DeleteDataNode's
+   owners, ...) and s[i].f = v (UpdateUser, SetPrivilege, TruncateShardGroups, ...).
+   This section is those idioms on one slice of any element type, with a copy that is deep
+   or shares the array. *)
+Section Slice.
+  Context {A : Type}.
+  Variable zero : A.
+  Variable spare : nat -> nat.
+
+  Record gslice := GS { gs_addr : nat; gs_len : nat }.
+  Definition gs_array (h : list (list A)) (s : gslice) : list A := nth (gs_addr s) h [].
+  Definition gs_read (h : list (list A)) (s : gslice) : list A := firstn (gs_len s) (gs_array h s).
+
+  (* make + copy into exactly len cells, or "other := v" (same array) *)
+  Definition gs_clone (deep : bool) (h : list (list A)) (s : gslice) : list (list A) * gslice :=
+    if deep then (h ++ [gs_read h s], GS (List.length h) (List.length (gs_read h s))) else (h, s).
+
+  Inductive gop :=
+  | GAppend (x : A)          (* s = append(s, x) *)
+  | GRemoveAt (i : nat)      (* s = append(s[:i], s[i+1:]...) *)
+  | GSet (i : nat) (x : A).  (* s[i] = x *)
+
+  Definition gs_step (hs : list (list A) * gslice) (o : gop) : list (list A) * gslice :=
+    let (h, s) := hs in
+    let arr := gs_array h s in
+    match o with
+    | GAppend x =>
+        if (gs_len s <? List.length arr)%nat
+        then (set_nth (gs_addr s) (set_nth (gs_len s) x arr) h, GS (gs_addr s) (S (gs_len s)))
+        else (h ++ [gs_read h s ++ x :: repeat zero (spare (gs_len s))], GS (List.length h) (S (gs_len s)))
+    | GRemoveAt i =>
+        if (i <? gs_len s)%nat
+        then (* cells i .. len-2 receive cells i+1 .. len-1; cell len-1 and the spare cells keep their contents *)
+             let l := gs_read h s in
+             (set_nth (gs_addr s) (firstn i l ++ skipn (S i) l ++ skipn (Nat.pred (gs_len s)) arr) h,
+              GS (gs_addr s) (Nat.pred (gs_len s)))
+        else (h, s)                                   (* not reached: the index comes from a search *)
+    | GSet i x =>
+        if (i <? gs_len s)%nat then (set_nth (gs_addr s) (set_nth i x arr) h, s) else (h, s)
+    end.
+End Slice.
+
 (* newStore: data: &Data{Index: 1} *)
 Definition init_fsm : fsm := Fs (Hp [[]; []] [Ho init_data (Sl 0 0) (Sl 1 0)]) 0.
 
